@@ -326,6 +326,9 @@ class Intervals:
                     src = op_place(rv[1] if rv[0] == "use" else rv[2])
                     if src is not None and not src[1]:
                         res = self._ptr_target(src[0], depth + 1)
+                        if res is None and self._stable_local(src[0]) and self._is_ref_local(src[0]):
+                            # a copy of a pointer that is never reassigned points where that pointer points
+                            res = (src[0], ("*",), True)
         self._ptr_cache[l] = res
         return res
 
@@ -617,9 +620,18 @@ class Intervals:
                             r"core::ops::range::Range(Inclusive)?<A>>::(next|next_back|size_hint|nth)$|"
                             r"^<core::iter::adapters::rev::Rev<I> as core::iter::traits::iterator::Iterator>::next$")
 
-    def _only_feeds_range_next(self, ref_local):
+    def _only_feeds_range_next(self, ref_local, depth=0):
         us = self._uses_of(ref_local)
-        return bool(us) and all(k == "call" and self.RANGE_NEXT.search(t.callee) for k, t in us)
+        if not us or depth > 4:
+            return False
+        for k, t in us:
+            if k == "call" and self.RANGE_NEXT.search(t.callee):
+                continue
+            if k == "ref" and t[2][0] == "ref" and t[2][2][0] == ref_local and t[2][2][1] == ["*"] and not t[1][1] \
+                    and self._only_feeds_range_next(t[1][0], depth + 1):
+                continue      # a plain reborrow `&mut *r` that itself only feeds Range::next
+            return False
+        return True
 
     # ---- transfer -----------------------------------------------------------------------------
     def assign(self, st, place, rv, bb, idx):
